@@ -58,6 +58,9 @@ def gen(rng, facts):
 def monitor(case, obs):
     tr = Track(case, obs)
     if not tr.ok: return 'no observations'
+    for pos, kind, n in tr.notes:
+        if kind == 7:
+            return 'statement %d reached a sink with a corrupted payload (text after "<id>:" differs from what was logged)' % n
     # expected per sink: accepted statements of loggers holding that sink whose level passes the sink's filter
     sink_level = {k: l for k, (l, _) in enumerate(case.sinks)}
     seen = {}
